@@ -141,6 +141,7 @@ fn run(rt: &tokio::runtime::Runtime, scn: &Scenario, k: usize, trace: &mut Trace
     );
     rt.block_on(network.initialize_static_peers(node.configs.clone()));
     trace.emit(json!({"ev": "Reset", "scn": k, "roles": scn.roles}));
+    let mut existed = std::collections::BTreeSet::new();
 
     for (i, st) in scn.steps.iter().enumerate() {
         let idx = index_of[&st.conn];
@@ -251,7 +252,7 @@ fn run(rt: &tokio::runtime::Runtime, scn: &Scenario, k: usize, trace: &mut Trace
                 _ => {}
             }
         }
-        let st_json = rt.block_on(snapshot(&peers, &index_of, &w));
+        let st_json = rt.block_on(snapshot(&peers, &index_of, &w, &mut existed));
         trace.emit(json!({"ev": st.op, "scn": k, "i": i + 1, "conn": st.conn, "key": st.key, "x": st.x,
             "valid": sent_valid, "ver": st.ver, "res": res, "sent": sent, "st": st_json}));
         if res != "ok" {
@@ -260,7 +261,12 @@ fn run(rt: &tokio::runtime::Runtime, scn: &Scenario, k: usize, trace: &mut Trace
     }
 }
 
-async fn snapshot(peers: &Arc<RwLock<PeerCollection>>, index_of: &BTreeMap<u64, u64>, w: &World) -> Value {
+async fn snapshot(
+    peers: &Arc<RwLock<PeerCollection>>,
+    index_of: &BTreeMap<u64, u64>,
+    w: &World,
+    existed: &mut std::collections::BTreeSet<u64>,
+) -> Value {
     let p = peers.read().await;
     let keyname = |pk: &[u8; 33]| -> String {
         for (n, k) in w.keys.iter() {
@@ -273,8 +279,12 @@ async fn snapshot(peers: &Arc<RwLock<PeerCollection>>, index_of: &BTreeMap<u64, 
     let mut conns = vec![];
     for (c, idx) in index_of.iter() {
         match p.index_to_peers.get(idx) {
-            None => conns.push(json!({"conn": c, "status": "gone", "chal": "-", "key": "-"})),
+            None => {
+                let s = if existed.contains(c) { "gone" } else { "none" };
+                conns.push(json!({"conn": c, "status": s, "chal": "-", "key": "-"}))
+            }
             Some(peer) => {
+                existed.insert(*c);
                 let status = match peer.peer_status {
                     PeerStatus::Connected => "connected",
                     PeerStatus::Connecting => "connecting",
